@@ -170,8 +170,9 @@ Proof. reflexivity. Qed.
 Lemma run_single cs : forallb returns cs = true -> single (run cs) = true.
 Proof.
   induction cs as [|c r IH]; cbn; [reflexivity|].
-  destruct c as [|st e ret|f fatal ret]; cbn; [exact IH| |].
+  destruct c as [|st e ret|ok|f fatal ret]; cbn; [exact IH| | |].
   - destruct ret; [reflexivity | discriminate].
+  - destruct ok; [exact IH | discriminate].
   - destruct ret; [|discriminate]. destruct f; [|exact IH]. destruct fatal; reflexivity.
 Qed.
 
@@ -180,8 +181,9 @@ Lemma run_stops pre st c post :
   forallb passes pre = true -> run (pre ++ CFail st c true :: post) = OResp st c.
 Proof.
   induction pre as [|x r IH]; cbn; [reflexivity|].
-  destruct x as [| |f fatal ret]; cbn; [exact IH | discriminate |].
-  destruct f; [discriminate | exact IH].
+  destruct x as [| |ok|f fatal ret]; cbn; [exact IH | discriminate | |].
+  - destruct ok; [exact IH | discriminate].
+  - destruct f; [discriminate | exact IH].
 Qed.
 
 (* the same for a failed storage call *)
@@ -189,8 +191,9 @@ Lemma run_stops_store pre post :
   forallb passes pre = true -> run (pre ++ CStore true true true :: post) = OFault.
 Proof.
   induction pre as [|x r IH]; cbn; [reflexivity|].
-  destruct x as [| |f fatal ret]; cbn; [exact IH | discriminate |].
-  destruct f; [discriminate | exact IH].
+  destruct x as [| |ok|f fatal ret]; cbn; [exact IH | discriminate | |].
+  - destruct ok; [exact IH | discriminate].
+  - destruct f; [discriminate | exact IH].
 Qed.
 
 Lemma xchecks_from_return i k l : forallb snd l = true -> forallb returns (xchecks_from i k l) = true.
@@ -206,6 +209,16 @@ Qed.
 
 Lemma xhandler_single x : single (xhandler true x) = true.
 Proof. apply run_single, xchecks_return. Qed.
+
+Lemma cchecks_return x : forallb returns (cchecks true x) = true.
+Proof. destruct x as [e p st v]. destruct e, p, st, v; reflexivity. Qed.
+
+Lemma chandler_single x : single (chandler true x) = true.
+Proof. apply run_single, cchecks_return. Qed.
+
+Lemma chandler_nil_challenge_panics :
+  chandler false {| c_entry := ViaLegacy; c_public := false; c_stored := false; c_verifier := VRight |} = OPanic.
+Proof. reflexivity. Qed.
 
 Lemma xhandler_unfixed_continues :
   xhandler false {| x_entry := ViaProvider; x_ep := XRevokeRT; x_fault := 2 |} = OContinued.
@@ -239,7 +252,7 @@ Lemma http_request_guarded f g h a :
   http_request f g true h a <> Panic /\ http_request f g true h a <> Ok None.
 Proof.
   unfold http_request. destruct (negb (a_ok a)); [split; discriminate|].
-  destruct (a_body a) as [|j]; [split; discriminate|].
+  destruct (a_body a) as [|j|j]; [split; discriminate| |split; discriminate].
   destruct (is_null j); [split; discriminate|].
   pose proof (struct_total f g (fst (hschema h)) (snd (hschema h)) j) as H.
   destruct (decode_struct f g true (fst (hschema h)) (snd (hschema h)) j); try (split; discriminate).
@@ -258,6 +271,14 @@ Proof.
   - now elim H1.
 Qed.
 
+(* success only on a 200 answer whose body is a JSON document *)
+Lemma call_ok_well_formed f g h a e :
+  call f g true h a e = CRetOk -> negb (a_ok a) || well_formed (a_body a) = true.
+Proof.
+  unfold call, http_request. destruct h; try discriminate;
+    (destruct (a_ok a); cbn; [|discriminate]; destruct (a_body a); cbn; [discriminate|reflexivity|discriminate]).
+Qed.
+
 Lemma call_unguarded_panics f g :
   call f g false HDiscover {| a_ok := true; a_body := BJson JNull |} "https://op" = CPanic.
 Proof. reflexivity. Qed.
@@ -265,15 +286,17 @@ Proof. reflexivity. Qed.
 (* ---- central theorem ---- *)
 Lemma spec_model i : spec i (model i) = true.
 Proof.
-  destruct i as [d j t|k tok t|s|x|e c q|h a e t|n amount dash]; cbn.
+  destruct i as [d j t|k tok t|s|x|cx|e c q|h a e t|n amount dash]; cbn.
   - pose proof (decode_total t d j) as H. destruct (decode t d j); try reflexivity. now elim H.
   - pose proof (verify_total (time_of t) (lang_of t) k tok) as H.
     destruct (verify _ _ true true k tok); try reflexivity. now elim H.
   - apply handler_single.
   - apply xhandler_single.
+  - apply chandler_single.
   - reflexivity.
   - pose proof (call_total (time_of t) (lang_of t) h a e) as H.
-    destruct (call _ _ true h a e); try reflexivity. now elim H.
+    pose proof (call_ok_well_formed (time_of t) (lang_of t) h a e) as W.
+    destruct (call _ _ true h a e); try reflexivity; [now apply W | now elim H].
   - destruct ((n <=? 0)%Z || (amount <=? 0)%Z); reflexivity.
 Qed.
 
@@ -307,11 +330,26 @@ Proof. intros f g. do 2 eexists. apply verify_unguarded_panics. Qed.
 
 Lemma handlers_total :
   (forall s : shape, match handler true s with OResp _ _ | OGrant | OFault => True | _ => False end) /\
-  (forall x : xshape, match xhandler true x with OResp _ _ | OGrant | OFault => True | _ => False end).
+  (forall x : xshape, match xhandler true x with OResp _ _ | OGrant | OFault => True | _ => False end) /\
+  (forall x : cshape, match chandler true x with OResp _ _ | OGrant | OFault => True | _ => False end).
 Proof.
-  split.
+  split; [|split].
   - intro s. pose proof (handler_single s) as H. destruct (handler true s); cbn in H; try discriminate; exact I.
   - intro x. pose proof (xhandler_single x) as H. destruct (xhandler true x); cbn in H; try discriminate; exact I.
+  - intro x. pose proof (chandler_single x) as H. destruct (chandler true x); cbn in H; try discriminate; exact I.
+Qed.
+
+Lemma code_nil_challenge_refuted : exists x, chandler false x = OPanic.
+Proof. eexists. exact chandler_nil_challenge_panics. Qed.
+
+Lemma client_success_only_on_documents :
+  forall (rfc3339_ok : string -> bool) (lang_class : string -> nat) h a e,
+    call rfc3339_ok lang_class true h a e = CRetOk -> a_ok a = true /\ exists j, a_body a = BJson j.
+Proof.
+  intros f g h a e H. pose proof (call_ok_well_formed f g h a e H) as W.
+  unfold call, http_request in H. destruct (a_ok a) eqn:E.
+  - split; [reflexivity|]. cbn in W. destruct (a_body a); try discriminate. now eexists.
+  - destruct h; discriminate.
 Qed.
 
 Lemma error_then_stop :
